@@ -1236,6 +1236,82 @@ val all_orders_from : nat -> node list list -> node list list
 
 val all_orders : node -> node list list
 
+type citem =
+| CIRange of n * n
+| CICat of bool * str
+
+type cset =
+| CDot
+| CAny
+| CSet of bool * citem list
+
+type ire =
+| IEmpty
+| IEps
+| IChars of cset
+| ICat of ire * ire
+| IAlt of ire * ire
+| IStar of ire
+
+val cat_match : (n -> str) -> str -> n -> bool
+
+val item_mem : (n -> str) -> n -> citem -> bool
+
+val cs_mem : (n -> str) -> n -> cset -> bool
+
+val nullable : ire -> bool
+
+val deriv : (n -> str) -> n -> ire -> ire
+
+val simp : ire -> ire
+
+val matches : (n -> str) -> ire -> str -> bool
+
+val normal_char : n -> bool
+
+val single_char_esc : n -> n option
+
+val cc_raw : n -> bool
+
+val category_ok : str -> bool
+
+val parse_cat : str -> (str * str) option
+
+val take_num : str -> z option -> z option * str
+
+val irep : ire -> nat -> ire
+
+val iopt : ire -> nat -> ire
+
+val quant_cap : z
+
+type 'a presult =
+| PSome of 'a * str
+| PFail
+| PUndecided
+
+val parse_class_items : nat -> str -> citem list -> citem list presult
+
+val parse_class : str -> cset presult
+
+val apply_quant : ire -> str -> ire presult
+
+val parse_alt : nat -> str -> ire presult
+
+val parse_branch : nat -> str -> ire -> ire presult
+
+val iparse : str -> ire presult
+
+val i_match : (n -> str) -> str -> str -> z
+
+val i_search : (n -> str) -> str -> str -> z
+
+val dot_replacement : str
+
+val map_re_loop : str -> bool -> bool -> str
+
+val m_map_re : str -> str
+
 val iota_json : z -> json list
 
 val enc_sel0 : (z * json) list -> z list
@@ -1297,5 +1373,11 @@ val op_graph : z list -> z list
 val op_valid_order : z list -> z list
 
 val op_all_orders : z list -> z list
+
+val op_map_re : z list -> z list
+
+val gc_lookup : (n * str) list -> n -> str
+
+val op_iregexp : z list -> z list
 
 val dispatch : z list -> z list
